@@ -270,7 +270,7 @@ def kernel_guards(repo, rep):
                 t = ast.unparse(test)
                 # reached only when `not ipeak` is False  /  `ipeak` true  / ipeak != 0 / ipeak > 0
                 if (t == f"not {p0}" and truth is False) or (t == p0 and truth is True) or \
-                        (t in (f"{p0} != 0", f"{p0} > 0", f"{p0} >= 1") and truth is True) or \
+                        (t in (f"{p0} != 0", f"{p0} > 0", f"{p0} >= 1", f"0 < {p0}", f"1 <= {p0}") and truth is True) or \
                         (t in (f"{p0} == 0", f"{p0} < 1", f"{p0} <= 0") and truth is False):
                     ok = True
             if ok:
@@ -317,7 +317,7 @@ def kernel_guards(repo, rep):
         if isinstance(n, ast.Subscript) and isinstance(n.value, ast.Name) and n.value.id == "dir" and \
                 isinstance(n.slice, ast.Constant) and n.slice.value == 1:
             gs = [ast.unparse(t) for t, tr in cfg.guards(cfg.node(n)) if tr]
-            if any("len(dir) > 1" in g or "dir.size > 1" in g or "len(dir) >= 2" in g for g in gs) and any("dir is not None" in g for g in gs):
+            if any(x in g for g in gs for x in ("len(dir) > 1", "dir.size > 1", "len(dir) >= 2", "1 < len(dir)", "1 < dir.size", "2 <= len(dir)")) and any("dir is not None" in g for g in gs):
                 rep.ok("R-C20-4", f"{fi.file}:{n.lineno} hs", "dir[1]", "guarded by 'dir is not None and len(dir) > 1'")
             else:
                 rep.fail("R-C20-4", fi.file, n.lineno, fi.qualname, ast.unparse(n),
